@@ -423,7 +423,8 @@ func nodeType2(interp *Interpreter, sc *scope, n *node, seen []*node) (t *itype,
 	switch n.kind {
 	case addressExpr, starExpr:
 		val, err := nodeType2(interp, sc, n.child[0], seen)
-		if err != nil {
+		if err != nil || val == nil {
+			// A nil type: the operand is a value expression not typed yet.
 			return nil, err
 		}
 		t = ptrOf(val, withNode(n), withScope(sc))
@@ -819,7 +820,7 @@ func nodeType2(interp *Interpreter, sc *scope, n *node, seen []*node) (t *itype,
 
 	case indexExpr:
 		var lt *itype
-		if lt, err = nodeType2(interp, sc, n.child[0], seen); err != nil {
+		if lt, err = nodeType2(interp, sc, n.child[0], seen); err != nil || lt == nil {
 			return nil, err
 		}
 		if lt.incomplete {
@@ -974,7 +975,9 @@ func nodeType2(interp *Interpreter, sc *scope, n *node, seen []*node) (t *itype,
 		}
 		if lt == nil {
 			// No package was found or we are not in a field expression, we are looking for a variable.
-			if lt, err = nodeType2(interp, sc, n.child[0], seen); err != nil {
+			if lt, err = nodeType2(interp, sc, n.child[0], seen); err != nil || lt == nil {
+				// A nil type: the left part is a value expression not typed yet (i.e. the
+				// index of a pointer to array), its type is set at CFG post-order.
 				return nil, err
 			}
 		}
@@ -1021,7 +1024,7 @@ func nodeType2(interp *Interpreter, sc *scope, n *node, seen []*node) (t *itype,
 
 	case sliceExpr:
 		t, err = nodeType2(interp, sc, n.child[0], seen)
-		if err != nil {
+		if err != nil || t == nil {
 			return nil, err
 		}
 
